@@ -31,7 +31,7 @@ out.append('%d seeded changes kept (each confirmed in a scratch worktree: builds
 out.append('')
 out.append('Behaviour-preserving refactorings (written by sub-agents told only to keep behaviour identical; `tools/try_refactors.sh` applies each to a scratch worktree of the commit it was written against and lists alarms, all of which would be false). All of them are clean with the current checker:')
 out.append('')
-for setname in ('a', 'b', 'c', 'd'):
+for setname in ('a', 'b', 'c', 'd', 'e'):
     try:
         idx = json.load(open(os.path.join(root, 'refactors', setname, 'index.json')))
     except Exception:
